@@ -2,6 +2,8 @@ import RichModel.Lemmas.SyntaxTraceback
 import RichModel.Lemmas.SyntaxHistory
 import RichModel.Lemmas.SyntaxStyles
 import RichModel.Lemmas.SyntaxMeasure
+import RichModel.Lemmas.SyntaxTrace
+import RichModel.Lemmas.SyntaxGutter
 /-
 Property C17 — Syntax and tracebacks show the source line for line under the right numbers.
 
@@ -577,6 +579,123 @@ theorem cached_text_would_decay :
       (fun r => r.bind (fun x => x.map List.length)) = [.ok 3, .ok 2, .ok 2] := by
   decide
 
+/-! ## The gutter: pointer, number, blank continuation rows (deepening round 4) -/
+
+/-- The gutter of EVERY numbered row, read character by character: `❱ ` (`> ` on legacy Windows) exactly when the row's
+number is in `highlight_lines`, two blanks otherwise; then `str(number)` right-justified in `numbers_column_width - 2`;
+then one blank; the rest of the row is the code cell.  The gutter is `numbers_column_width + 1` characters long for every
+row (the width computed from the number of newlines in the code holds every number shown). -/
+theorem gutter_shows_pointer_and_number (cw : Char → Nat) (o : Opts) (found : Bool) (lex : List Char → List Line)
+    (code : List Char) (h : Setting o found lex code) (hn : o.lineNumbers = true) :
+    ∃ rows, numberedRows cw false false o found lex code = .ok rows ∧
+      ∀ r ∈ rows,
+        r.render (numbersColumnWidth o code) o.legacyWindows =
+          numberGutter (numbersColumnWidth o code) o.legacyWindows r.num (o.highlightLines.contains r.num) ++ r.body ∧
+        (numberGutter (numbersColumnWidth o code) o.legacyWindows r.num (o.highlightLines.contains r.num)).length =
+          numbersColumnWidth o code + 1 := by
+  obtain ⟨rows, he, hall⟩ := gutter_wide_enough cw o found lex code h hn
+  obtain ⟨rows', he', hnum⟩ := numbers_are_line_numbers cw o found lex code h
+  have : rows' = rows := by rw [he] at he'; cases he'; rfl
+  subst this
+  refine ⟨rows', he, ?_⟩
+  intro r hr
+  have hm := (hnum r hr).2.2
+  refine ⟨by rw [Row.render_eq_gutter, hm], numberGutter_length _ _ _ _ (hall r hr).1⟩
+
+/-- Word wrap (`numberFolded`, the loop `for first, wrapped_line in loop_first(wrapped_lines)`), for ANY folding of any number
+of logical lines into rows: removing `numbers_column_width + 1` characters from every row gives the folded rows back in
+order; the gutters are — per logical line — the numbered gutter (pointer iff highlighted) on its FIRST row and
+`" " * numbers_column_width + " "` on every continuation row; the number advances by one per LOGICAL line, however many
+rows a line takes. -/
+theorem folded_rows_have_blank_gutter (ncw : Nat) (legacy : Bool) (hl : List Nat) (bodies : List (List Line)) (n : Nat)
+    (hfit : ∀ i, i < bodies.length → (natStr (n + i)).length + 2 ≤ ncw) :
+    (numberFolded ncw legacy hl n bodies).map (List.drop (ncw + 1)) = bodies.flatten ∧
+    (numberFolded ncw legacy hl n bodies).map (List.take (ncw + 1)) = gutters ncw legacy hl n bodies :=
+  numberFolded_spec ncw legacy hl bodies n hfit
+
+/-- … and on the render path itself (`renderW`, numbered, word wrap on, repaired variant, any `Text.wrap` variant): whatever
+rows come out, they are one group of folded rows per selected logical line; with the gutter removed they are those folded
+rows in order; the gutters are the numbered one on the first row of each line and blanks on its continuation rows, numbers
+running from `start_line + offset` once per logical line. -/
+theorem wordwrap_rows_numbered_once (wv : Wrap.WVariant) (cw : Char → Nat) (o : Opts) (found : Bool) (lex : List Char → List Line)
+    (code : List Char) (h : Setting o found lex code) (hn : o.lineNumbers = true) (hww : o.wordWrap = true) (rows : List Line)
+    (hr : renderW wv cw false false o found lex code = some (.ok rows)) :
+    ∃ lines bodies, selectedLines false false o found lex code = .ok lines ∧ bodies.length = lines.length ∧
+      rows.map (List.drop (numbersColumnWidth o code + 1)) = bodies.flatten ∧
+      rows.map (List.take (numbersColumnWidth o code + 1)) =
+        gutters (numbersColumnWidth o code) o.legacyWindows o.highlightLines (o.startLine + lineOffset o) bodies := by
+  have hroom : ¬ codeWidthInt o code < 1 := by
+    have := h.room; rw [hww] at this; simpa using this
+  obtain ⟨lines, bodies, hsel, hlen, hrows⟩ := renderW_wrapped_numbered wv cw false false o found lex code rows hww hn hroom hr
+  obtain ⟨nrows, he, hall⟩ := gutter_wide_enough cw o found lex code h hn
+  have hnr : nrows = numberRows (o.startLine + lineOffset o) o.highlightLines
+      (lines.map (fitLine cw (colWidth o code) o.pad (noCrop o))) := by
+    simp only [numberedRows, hsel, h.room, Bool.false_eq_true, if_false] at he
+    cases he; rfl
+  have hfit : ∀ i, i < bodies.length → (natStr (o.startLine + lineOffset o + i)).length + 2 ≤ numbersColumnWidth o code := by
+    intro i hi
+    rw [hlen] at hi
+    have hget := numberRows_getElem? o.highlightLines (lines.map (fitLine cw (colWidth o code) o.pad (noCrop o))) (o.startLine + lineOffset o) i
+    rw [← hnr, List.getElem?_map, List.getElem?_eq_getElem hi] at hget
+    have hmem := List.mem_of_getElem? hget
+    exact (hall _ hmem).1
+  obtain ⟨h1, h2⟩ := numberFolded_spec (numbersColumnWidth o code) o.legacyWindows o.highlightLines bodies (o.startLine + lineOffset o) hfit
+  exact ⟨lines, bodies, hsel, hlen, by rw [hrows]; exact h1, by rw [hrows]; exact h2⟩
+
+/-! ## The exception chain and the frames of a stack (deepening round 4) -/
+
+/-- `Traceback.extract` + `Traceback.__rich_console__`, for EVERY finite exception tree whose designated older exceptions
+were raised (truthy, with a traceback): what is printed is the chain by Python's own rule — `__cause__` when set, else
+`__context__` unless `__suppress_context__` — OLDEST exception first; every exception with its own frames in `walk_tb`
+order (panel only when it has frames), its SyntaxError panel, its `Type: message` line; and between an older and the next
+newer exception the sentence "direct cause" exactly when the older one is the newer one's `__cause__`, "during handling"
+when it is its `__context__`.  No sentence after the newest. -/
+theorem chain_is_shown_oldest_first (e : Exc) (h : AllUsable e) :
+    renderException e = expectedChain e :=
+  renderTrace_extract false e h
+
+/-- `_render_stack`, either variant, any number of frames, any file system: what is yielded is what each frame contributes
+when the file system is read directly — the per-call cache changes nothing, a file that cannot be opened is not
+remembered, frames come in call order, a blank separator before every frame but the first. -/
+theorem render_stack_frame_by_frame (g : Bool) (special known : FileId → Bool) (fs : FileId → Option (List Char))
+    (frames : List Frame) :
+    renderStack g special known fs frames = stackSpec g special known fs true frames :=
+  renderStackFrom_spec g special known fs frames [] true (by intro p hp; cases hp)
+
+/-- REPAIRED variant (`guessRaises = false`): EVERY frame of a readable file — whatever its name: `.py`, no extension, an
+extension no Pygments lexer claims — gets its header followed by a blank row and the `Syntax` built from the file's
+content NOW with `line_range = (lineno - extra, lineno + extra)`, `highlight_lines = {lineno}`; and (with
+`traceback_marks_failing_line`, for every lexer meeting the contract, the fallback lexer "text" included) that Syntax has
+exactly one marked row, numbered `lineno`, showing line `lineno`. -/
+theorem readable_frame_shows_marked_line (special known : FileId → Bool) (fs : FileId → Option (List Char))
+    (frames : List Frame) (fr : Frame) (code : List Char) (hfr : fr ∈ frames) (hsp : special fr.file = false)
+    (hread : fs fr.file = some code)
+    (cw : Char → Nat) (extra : Nat) (wordWrap guides : Bool) (maxWidth : Nat) (nw lw asc pad found : Bool)
+    (lex : List Char → List Line) (l : Line) (hclean : Clean code)
+    (hlex : found = true → (lex (expandTabs 4 code)).flatten = pygPre false (expandTabs 4 code))
+    (hpos : 1 ≤ fr.lineno) (hline : (splitNL (expandTabs 4 code))[fr.lineno - 1]? = some l) (hl : ¬ Blank l) :
+    (∃ pre, pre ++ [FrameItem.header fr.file fr.lineno, FrameItem.blank, FrameItem.syntax code fr.lineno (known fr.file)]
+        <:+: renderStack false special known fs frames) ∧
+    (let o := tracebackOpts fr.lineno extra wordWrap guides maxWidth nw lw asc pad
+     ∃ rows g, numberedRows cw false false o found lex code = .ok rows ∧
+       rows.filter (·.marked) = [{ num := fr.lineno, marked := true, body := fitLine cw 88 pad (noCrop o) g }] ∧
+       (if guides && !asc then GuideOf l g else g = l)) := by
+  refine ⟨?_, traceback_marks_failing_line cw fr.lineno extra wordWrap guides maxWidth nw lw asc pad found lex code l
+    hclean hlex hpos hline hl⟩
+  rw [render_stack_frame_by_frame]
+  obtain ⟨fst, hin⟩ := stackSpec_infix false special known fs fr frames true hfr
+  refine ⟨if !special fr.file && !fst then [FrameItem.blank] else [], ?_⟩
+  simpa [frameSpec, hsp, hread] using hin
+
+/-- AS FOUND (`guessRaises = true`): a readable file whose name no lexer claims (a script without extension) gets the row
+"no lexer for filename … found" and NO source line — the traceback clause fails for it. -/
+theorem old_unknown_extension_shows_no_source :
+    renderStack true (fun _ => false) (fun _ => false) (fun _ => some "x = 1 // 0\n".toList) [⟨0, 1⟩]
+      = [FrameItem.header 0 1, FrameItem.error] ∧
+    renderStack false (fun _ => false) (fun _ => false) (fun _ => some "x = 1 // 0\n".toList) [⟨0, 1⟩]
+      = [FrameItem.header 0 1, FrameItem.blank, FrameItem.syntax "x = 1 // 0\n".toList 1 false] := by
+  decide
+
 /-! ## Non-vacuity: the hypotheses are met by concrete, non-trivial values; the repaired variant on the witnesses -/
 
 example : Setting (demoOpts (some (3, 4)) [3]) true (oneToken false) demoCode :=
@@ -659,5 +778,49 @@ example : renderHistory false [] [((fun _ => "a".toList), [0, 0]), ((fun _ => "\
 
 /-- a Trail with something actually missing: without a range, a source ending in a blank line -/
 example : Trail 1 ["a".toList] (srcLines "a\n\n".toList) := ⟨1, by omega, by decide⟩
+
+/-- a three-level MIXED chain: `TypeError` raised while handling `RuntimeError`, which was raised `from` a `KeyError`
+(names 3, 2, 1; frames in files 7, 8, 9) -/
+def demoChain : Exc :=
+  .mk 3 [⟨7, 10⟩, ⟨7, 4⟩] true true false false none
+    (some (.mk 2 [⟨8, 5⟩] true true true false
+      (some (.mk 1 [⟨9, 2⟩] true true false false none none))
+      (some (.mk 1 [⟨9, 2⟩] true true false false none none))))
+
+example : AllUsable demoChain := by
+  simp [demoChain, AllUsable, Exc.usable]
+
+example : renderException demoChain =
+    [.panel [⟨9, 2⟩], .excLine 1 false, .link true, .panel [⟨8, 5⟩], .excLine 2 false, .link false,
+     .panel [⟨7, 10⟩, ⟨7, 4⟩], .excLine 3 false] := by
+  decide
+
+/-- outside `AllUsable` (observed, not claimed): a cause that was never raised (`raise X from ValueError()`) carries no
+traceback and is NOT shown by rich, where Python's own traceback shows it -/
+example : renderException (.mk 2 [⟨8, 5⟩] true true true false (some (.mk 1 [] true false false false none none)) none)
+    = [.panel [⟨8, 5⟩], .excLine 2 false] := by
+  decide
+
+/-- a stack that reads the same file twice, meets a `<frozen …>` frame and a file that cannot be opened -/
+example : renderStack false (fun f => f == 5) (fun f => f == 0) (fun f => if f == 3 then none else some [Char.ofNat (97 + f)])
+      [⟨0, 1⟩, ⟨5, 9⟩, ⟨3, 2⟩, ⟨0, 7⟩, ⟨1, 4⟩] =
+    [.header 0 1, .blank, .syntax ['a'] 1 true, .header 5 9, .blank, .header 3 2, .error,
+     .blank, .header 0 7, .blank, .syntax ['a'] 7 true, .blank, .header 1 4, .blank, .syntax ['b'] 4 false] := by
+  decide
+
+/-- folded rows: line 9 takes one row, line 10 (highlighted) three; the gutter is 4 + 1 wide -/
+example : numberFolded 4 false [10] 9 [["ab".toList], ["cd".toList, "ef".toList, "g".toList]] =
+    ["   9 ab".toList, "❱ 10 cd".toList, "     ef".toList, "     g".toList] := by
+  simp [numberFolded, renderFolded, Row.render, natStr, rjust, pointer]
+
+example : ∀ i, i < [["ab".toList], ["cd".toList, "ef".toList, "g".toList]].length → (natStr (9 + i)).length + 2 ≤ 4 := by
+  intro i hi
+  have : i = 0 ∨ i = 1 := by simp at hi; omega
+  rcases this with rfl | rfl <;> simp [natStr]
+
+/-- the hypotheses of `wordwrap_rows_numbered_once` are satisfiable: word wrap on, line numbers on, room for a row
+(that `renderW` answers `some (.ok rows)` there is what the driver shows on every word-wrapped `syn_render` case) -/
+example : Setting { demoOpts none [2] with wordWrap := true } true (oneToken false) "ab cd\nef\n".toList :=
+  ⟨by unfold Clean; decide, fun _ => rfl, rfl, fun a b h => (by cases h), by decide, by decide⟩
 
 end RichModel.C17
